@@ -1,7 +1,8 @@
 import GlmVerif.Spec.C02
-import GlmVerif.Gen.C02
-/-! table check of family `negm` against the model generated from /repo (kernel evaluation) -/
+import GlmVerif.Gen.C02.negm
+/-! table check of family `negm` against the model of its units generated from /repo (kernel evaluation) -/
 namespace Glm.Props.C02
 open Glm Glm.Spec.C02 Glm.Gen.C02
-theorem negm_ok : f_negm.ok lookup = true := by decide +kernel
+set_option maxHeartbeats 4000000 in
+theorem negm_ok : f_negm.ok (fun _ ks => negm_L ks) = true := by decide +kernel
 end Glm.Props.C02
